@@ -96,7 +96,7 @@ def ob_call(ob, clock, k, c):
 
 
 def run_ob(tr):
-    ob = core.OrderBook(0, tr["tick"])
+    ob = core.OrderBook(0, tr["tick"]) if tr.get("trading", True) else core.OrderBook(0, tr["tick"], trading=False)
     clock = [0]
     calls = tr["calls"]
     before = None
@@ -208,7 +208,7 @@ def env_call(env, c):
 
 
 def replay_env(tr):
-    env = core.StepEnv(tr["seed"], tr.get("start", 0), tr["tick"], tr["step_size"])
+    env = core.StepEnv(tr["seed"], tr.get("start", 0), tr["tick"], tr["step_size"]) if tr.get("trading", True) else core.StepEnv(tr["seed"], tr.get("start", 0), tr["tick"], tr["step_size"], False)
     calls = tr["calls"]
     before = None
     ret = exc = None
@@ -334,7 +334,7 @@ def numpy_replay(tr):
     for c in calls:
         if c[0] == "modify" or c[0] in ("enable", "disable") or (c[0] == "place" and (c[4] is None or c[4] % tr["tick"] != 0)):
             return None
-    env = core.StepEnvNumpy(tr["seed"], tr.get("start", 0), tr["tick"], tr["step_size"])
+    env = core.StepEnvNumpy(tr["seed"], tr.get("start", 0), tr["tick"], tr["step_size"], trading=tr.get("trading", True))
     i = 0
     use_instr = tr["id"] % 2 == 0
     while i < len(calls):
